@@ -27,6 +27,9 @@ pub enum Step {
     /// an operation on another part of the store (another document, settings, authors, flush, committing reads,
     /// requests that fail inside the store): must not change anything this document shows
     Noise(Noise),
+    /// remove the document and create it again: it must then behave like a fresh one (nothing of the old contents, no
+    /// derived state left behind)
+    RemoveAndRecreate,
 }
 
 #[derive(Serialize, Deserialize, Clone, Debug)]
@@ -62,6 +65,7 @@ fn step() -> impl Strategy<Value = Step> {
         1 => any::<u16>().prop_map(Step::Reoffer),
         1 => Just(Step::Reopen),
         2 => crate::gen::noise().prop_map(Step::Noise),
+        1 => Just(Step::RemoveAndRecreate),
     ]
 }
 
@@ -180,6 +184,24 @@ fn check_history(ctx: &mut Ctx, h: &History) -> Outcome {
                         let d = dump(&mut st.store, ns)?;
                         if d != model.dump() {
                             o.fail("C02/noise-changed-the-document", format!("step {i} {:?}: store {} model {}", nz, describe_all(&d), describe_all(&model.dump())));
+                            break;
+                        }
+                    }
+                    continue;
+                }
+                Step::RemoveAndRecreate => {
+                    es(st.store.remove_replica(&ns))?;
+                    es(st.store.import_namespace(nssec.clone().into()))?;
+                    model = Model::default();
+                    o.class("history/document-removed-and-re-created");
+                    if !h.sparse_observe {
+                        let d = dump(&mut st.store, ns)?;
+                        if !d.is_empty() {
+                            o.fail("C02/recreated-not-empty", format!("step {i}: the re-created document holds {}", describe_all(&d)));
+                            break;
+                        }
+                        if let Err(e) = self_consistent(&mut st.store, ns) {
+                            o.fail("C02/consistency", format!("step {i} after removal and re-creation: {e}"));
                             break;
                         }
                     }
